@@ -205,8 +205,11 @@ where
                 pos: Self::DATA_OFFSET,
             });
         }
-        for (i, x) in unsafe { this.data().get_unchecked(..this.len()) }.iter().enumerate() {
-            unsafe { T::validate_ptr(x.as_ptr()) }.map_err(|e| e.offset(Self::DATA_OFFSET + i * T::SIZE))?;
+        // Zero-sized elements have no bytes that could be invalid (and `len` is bounded only by `L::MAX` for them).
+        if T::SIZE != 0 {
+            for (i, x) in unsafe { this.data().get_unchecked(..this.len()) }.iter().enumerate() {
+                unsafe { T::validate_ptr(x.as_ptr()) }.map_err(|e| e.offset(Self::DATA_OFFSET + i * T::SIZE))?;
+            }
         }
         Ok(())
     }
